@@ -245,6 +245,11 @@ func (l *lister) visit(path string, v reflect.Value) {
 		}
 		if v.Len() > 0 {
 			l.leaves = append(l.leaves, leaf{Path: path + "#dup", set: func() { v.Set(reflect.Append(v, v.Index(0))) }})
+		}
+		if v.Len() > 1 {
+			// never down to empty: an empty list is not always a value a front-end can produce (a
+			// Vtextmem_instance without boxes prints as "vtextmem", which no Instantiate accepts, and
+			// Instantiate itself never returns one)
 			l.leaves = append(l.leaves, leaf{Path: path + "#drop", set: func() { v.Set(v.Slice(0, v.Len()-1)) }})
 		}
 		if v.Len() > 1 && !reflect.DeepEqual(v.Index(0).Interface(), v.Index(v.Len()-1).Interface()) {
@@ -310,6 +315,7 @@ func pickLeaf(ls []leaf, n int) (leaf, bool) {
 		groups[s] = append(groups[s], i)
 	}
 	sort.Strings(order)
-	g := groups[order[n%len(order)]]
-	return ls[g[(n/len(order))%len(g)]], true
+	h := splitmix(uint64(n)) // rapid favours small integers: spread them
+	g := groups[order[int(h%uint64(len(order)))]]
+	return ls[g[int((h>>32)%uint64(len(g)))]], true
 }
